@@ -317,9 +317,11 @@ Definition rfinal (g : state -> state) (r : R) : R :=
   | RErr e s => RErr e (g s)
   | x => x
   end.
-Definition tolerate (on : bool) (r : R) : R :=
+(* a tolerated unknown identifier counts as nil; evaluation goes on, so the statement
+   recorded while the error was raised is dropped for the one current before (ostmt) *)
+Definition tolerate (on : bool) (ostmt : option nat) (r : R) : R :=
   match r with
-  | RErr e s => if on && is_unknown e then ROk (VNil, s) else RErr e s
+  | RErr e s => if on && is_unknown e then ROk (VNil, with_stmt s ostmt) else RErr e s
   | x => x
   end.
 
@@ -389,7 +391,7 @@ Definition eval_step (self : evals) (st : state) (e : expr) : R :=
       | EIdent _ pre names =>
           r_eval_chain self st (rev (match pre with Some s => s :: names | None => names end))
       | EPrefix _ op r =>
-          let+ (v, st1) := tolerate true (r_eval self st r) in
+          let+ (v, st1) := tolerate true (sstmt st) (r_eval self st r) in
           if beq op [33] then ROk (VBool (negb (truthy v)), st1) else fail st1
       | EInfix _ op l r => r_eval_infix self st op l r
       | EArr els =>
@@ -464,11 +466,11 @@ Definition eval_pairs_step (self : evals) (st : state) (ps : list (expr * expr))
 
 Definition eval_infix_step (self : evals) (st : state) (op : bytes) (l r : expr) : R :=
       let tol := tolerant_op op in
-      let+ (lv, st1) := tolerate tol (r_eval self st l) in
+      let+ (lv, st1) := tolerate tol (sstmt st) (r_eval self st l) in
       if op_is op o_and && negb (truthy lv) then ROk (VBool false, st1)
       else if op_is op o_or && truthy lv then ROk (VBool true, st1)
       else
-        let+ (rv, st2) := tolerate tol (r_eval self st1 r) in
+        let+ (rv, st2) := tolerate tol (sstmt st) (r_eval self st1 r) in
         if op_is op o_and || op_is op o_or then ROk (VBool (truthy rv), st2)
         else if is_nil lv || is_nil rv then of_opres (nils_op op lv rv) st2
         else
@@ -502,7 +504,7 @@ Definition eval_if_step (self : evals) (st : state) (branches : list (expr * blo
       match branches with
       | [] => match els with Some b => r_eval_block self st b | None => ROk (VNil, st) end
       | (c, b) :: rest =>
-          let+ (cv, st1) := tolerate true (r_eval self st c) in
+          let+ (cv, st1) := tolerate true (sstmt st) (r_eval self st c) in
           if truthy cv then r_eval_block self st1 b else r_eval_if self st1 rest els
       end.
 
